@@ -460,6 +460,9 @@ func main() {
 			for _, cf := range configs(th) {
 				hs = append(hs, harness(cf))
 			}
+			for _, cf := range swarmConfigs(th) {
+				hs = append(hs, swarmHarness(cf))
+			}
 		}
 		vrt.WorkerMain(hs)
 		run := evid.New("C19", "exploration")
@@ -470,7 +473,12 @@ func main() {
 		if run.Thorough() {
 			maxDur = 110
 		}
-		for _, cf := range configs(run.Thorough()) {
+		part1 := configs(run.Thorough())
+		if os.Getenv("C19_PART") == "2" { // development aid: only the scheduler-level part
+			part1 = nil
+			run.NotExhaustive("C19_PART=2: part 1 skipped")
+		}
+		for _, cf := range part1 {
 			h := harness(cf)
 			_, o1, _ := vrt.Replay(h, nil)
 			_, o2, _ := vrt.Replay(h, nil)
@@ -488,6 +496,30 @@ func main() {
 				}
 				return m + " [" + kind + "]"
 			})
+		}
+		// part 2: the announce / connection-slot layer (one real scheduler against
+		// the most general swarm environment), see swarm.go
+		for _, cf := range swarmConfigs(run.Thorough()) {
+			h := swarmHarness(cf)
+			_, o1, _ := vrt.Replay(h, nil)
+			_, o2, _ := vrt.Replay(h, nil)
+			if o1 != o2 {
+				run.Fatal(fmt.Errorf("non-deterministic replay in %q: %q vs %q", cf.name, o1, o2))
+			}
+			res := rep.VRT(run, h, cf.bound, evid.Workers(), maxDur, func(v vrt.Violation) string {
+				m := strings.SplitN(v.Msg, ";", 2)[0]
+				if i := strings.Index(m, " ("); i > 0 {
+					m = m[:i]
+				}
+				return fmt.Sprintf("%s [scheduler swarm, connection limit %d]", m, cf.maxConn)
+			})
+			sat := 0
+			for k, n := range res.Outcomes {
+				if strings.Contains(k, "saturatedAnswer=1") {
+					sat += n
+				}
+			}
+			run.Set("swarm:"+cf.name+":executions with an announce answer applied while saturated", sat)
 		}
 		run.Finish()
 	})
